@@ -47,7 +47,7 @@ func genC20(rt *rapid.T) interface{} {
 		sc.First = rapid.IntRange(0, 6000).Draw(rt, "firstv")
 	}
 	n := rapid.IntRange(1, tierScale(9)).Draw(rt, "nops")
-	kinds := []string{"restart", "restart", "restart", "pair-setup", "pair-add", "unpair", "unpair", "set", "set", "probe"}
+	kinds := []string{"restart", "restart", "restart", "pair-setup", "pair-add", "pair-add-again", "unpair", "unpair", "unpair-unknown", "set", "set", "probe"}
 	for i := 0; i < n; i++ {
 		op := C20Op{Kind: rapid.SampledFrom(kinds).Draw(rt, "kind"), Arg: rapid.IntRange(0, 11).Draw(rt, "arg")}
 		if op.Kind == "restart" && rapid.Bool().Draw(rt, "bigarg") {
@@ -318,7 +318,7 @@ func runC20(t *testing.T, sci interface{}) *Outcome {
 					pairings = append(pairings, c)
 					checkTXT(when + " after pair-setup")
 				}
-			case "pair-add", "unpair", "probe":
+			case "pair-add", "pair-add-again", "unpair", "unpair-unknown", "probe":
 				if len(pairings) == 0 {
 					continue
 				}
@@ -339,6 +339,20 @@ func runC20(t *testing.T, sci interface{}) *Outcome {
 						m, err := cl.Do("POST", "/pairings", ref.CTypeTLV, body)
 						if err != nil || m.Status != 200 {
 							violate("pairings-add-failed", "%s: add pairing failed: %v %+v", when, err, m)
+							return
+						}
+					case "pair-add-again":
+						// adding a controller that is already paired (a permission update) changes nothing
+						body := ref.TLVEncode([]ref.TLV{{Tag: ref.TagState, Val: []byte{1}}, {Tag: ref.TagMethod, Val: []byte{3}}, {Tag: ref.TagIdentifier, Val: []byte(victim.id)}, {Tag: ref.TagPublicKey, Val: victim.kp.Pub}, {Tag: ref.TagPermission, Val: []byte{1}}})
+						m, err := cl.Do("POST", "/pairings", ref.CTypeTLV, body)
+						if err != nil || m.Status != 200 {
+							violate("pairings-add-failed", "%s: add pairing (again) failed: %v %+v", when, err, m)
+							return
+						}
+					case "unpair-unknown":
+						body := ref.TLVEncode([]ref.TLV{{Tag: ref.TagState, Val: []byte{1}}, {Tag: ref.TagMethod, Val: []byte{4}}, {Tag: ref.TagIdentifier, Val: []byte("nobody-knows-me")}})
+						if _, err := cl.Do("POST", "/pairings", ref.CTypeTLV, body); err != nil {
+							violate("pairings-remove-failed", "%s: remove of an unknown pairing failed: %v", when, err)
 							return
 						}
 					case "unpair":
